@@ -22,7 +22,33 @@ BASELINE = (
 TABLE = {}
 
 
+# sub-checks and generator regions added after the seeded-change rounds (DESIGN.md 6.5), appended to the level text
+ADDED = {
+    "C01": "Fourier generators whose period is assigned after construction; sampling by numerical inversion of the shipped radial cdf (3-D) and the cdf against closed forms.",
+    "C02": "rescale drawn on both sides of 1 together with non-default optional arguments.",
+    "C03": "closed forms also for spatio-temporal / lat-lon models of the same dimension; integral scale re-read after in-place shape-parameter changes.",
+    "C04": "a second model with its own Hankel settings present in the process.",
+    "C05": "estimate-only calls before / after a re-assigned mean with and without the refresh.",
+    "C06": "estimate-only calls around a new mean at the conditioning points.",
+    "C07": "mesh-type switches on the same coordinate arrays, direct calls of the kriging object, results stored under other names.",
+    "C08": "directions through the angles keyword, tolerances beyond a right angle, no_data with a constant mean.",
+    "C10": "input arrays as transposed views, Fortran order and read-only.",
+    "C11": "meshio meshes with 1-4 cell blocks; the isclose window of known finding K7 is evaluated by the check itself, not by the library's ==.",
+    "C12": "objects evaluated, re-oriented in place and evaluated again on their stored positions; length-scale lists assigned to used models.",
+    "C13": "kriging objects whose model is exchanged / changed in place; r2 of lat-lon fits recomputed in the great-circle geometry.",
+    "C14": "constructor keywords vs setters (ctor sub-check); list parameters also as float arrays overwritten by the caller; isometrize and integral scale compared after every step / at the end.",
+    "C15": "wrapper amplitudes over 120 decades; tolerances / bandwidths / lattice points and sparse masked axis data handed unchanged to the kernels.",
+    "C16": "vector fields stored on meshio points / cell blocks; requests up to 140000 points; SRFs reused after in-place dim / len_scale changes.",
+    "C17": "period arrays re-used by the caller.",
+    "C18": "shift-only fits of BoxCoxShift; anisotropic rotated models in the pipeline sub-check.",
+    "C19": "process=False with keep_mean=False as a fourth processing mode.",
+    "C20": "model parameter arrays (constructor / setters), unsorted ndarray class values and thresholds.",
+}
+
+
 def entry(pid, technique, text, note, ref):
+    if pid in ADDED:
+        text = text.rstrip() + " Added after seeded changes (DESIGN.md 6.5): " + ADDED[pid]
     TABLE[pid] = (technique, text, note, ref)
 
 
